@@ -34,6 +34,7 @@ type fpProg struct {
 	Prog     []fpReq `json:"prog"`
 	CapDelay bool    `json:"capDelay"`
 	SkipErr  bool    `json:"skipErr"`
+	Off      string  `json:"off"` // smudging switched off for the session: no | skip | exclude
 	hash     uint64
 	raw      string
 }
@@ -101,11 +102,19 @@ func runFPSession(c *core.Ctx, lfsBin string, p *fpProg, idx int) ([]map[string]
 	cmd := exec.Command(filepath.Join(env.BinDir, "git-lfs"), "filter-process")
 	cmd.Dir = repo
 	cmd.Env = append(env.Environ(), "GIT_TERMINAL_PROMPT=0")
+	switch p.Off {
+	case "skip":
+		cmd.Env = append(cmd.Env, "GIT_LFS_SKIP_SMUDGE=1")
+	case "exclude":
+		if r := env.Git(repo, "config", "lfs.fetchexclude", "*.bin"); !r.OK() {
+			return nil, fmt.Errorf("setup: %s", r.All())
+		}
+	}
 	sess, err := pkt.Start(cmd, caps)
 	if err != nil {
 		return nil, err
 	}
-	events := []map[string]interface{}{{"ev": "reset", "capDelay": p.CapDelay, "skipErr": p.SkipErr, "prog": p.raw}}
+	events := []map[string]interface{}{{"ev": "reset", "capDelay": p.CapDelay, "skipErr": p.SkipErr, "off": p.offOrNo(), "prog": p.raw}}
 	classify := func(b []byte, o string, input []byte) string {
 		switch {
 		case o != "" && string(b) == string(content[o]):
@@ -226,9 +235,22 @@ func init() {
 			}
 			return progs[i].hash < progs[j].hash
 		})
-		if len(progs) > budget {
-			progs = progs[:budget]
+		// sessions with smudging switched off take a quarter of the budget, heaviest first
+		var on, offp []*fpProg
+		for _, p := range progs {
+			if p.offOrNo() == "no" {
+				on = append(on, p)
+			} else {
+				offp = append(offp, p)
+			}
 		}
+		if len(offp) > budget/4 {
+			offp = offp[:budget/4]
+		}
+		if len(on) > budget-len(offp) {
+			on = on[:budget-len(offp)]
+		}
+		progs = append(on, offp...)
 		c.Logf("playing %d of %d programs", len(progs), total)
 		all := make([][]map[string]interface{}, len(progs))
 		var mu sync.Mutex
@@ -307,7 +329,7 @@ func init() {
 			case ev["ev"] == "clean" || ev["ev"] == "smudge":
 				assertion = "content-equals-one-shot-filter"
 			}
-			c.Report(core.Violation{Assertion: assertion, Fields: map[string]string{"event": fmt.Sprint(ev["ev"]), "capDelay": fmt.Sprint(progs[ri].CapDelay), "skipErr": fmt.Sprint(progs[ri].SkipErr)},
+			c.Report(core.Violation{Assertion: assertion, Fields: map[string]string{"event": fmt.Sprint(ev["ev"]), "capDelay": fmt.Sprint(progs[ri].CapDelay), "skipErr": fmt.Sprint(progs[ri].SkipErr), "off": progs[ri].offOrNo()},
 				Detail: map[string]interface{}{"program": json.RawMessage(progs[ri].raw), "rejected_event": ev, "session": all[ri],
 					"note": "the acceptor FilterProcessTrace has no action matching this exchange in the state reached by the session's earlier exchanges"}})
 		}
@@ -323,8 +345,27 @@ func init() {
 	}
 }
 
+func (p *fpProg) offOrNo() string {
+	if p.Off == "" {
+		return "no"
+	}
+	return p.Off
+}
+
 func fpWeight(p *fpProg) int {
 	w := 0
+	if p.offOrNo() != "no" {
+		// switched-off sessions matter where the object is at hand and Git allows a delay
+		for _, r := range p.Prog {
+			if r.Cmd == "smudge" && r.What == "local" {
+				w++
+				if r.Delay {
+					w += 2
+				}
+			}
+		}
+		return w
+	}
 	for _, r := range p.Prog {
 		if r.Delay {
 			w += 2
